@@ -9,6 +9,7 @@
 //   over all 256^2 values on 4 base patterns.  native: all pairs of triples over a 12-value alphabet.
 // Oracle: schoolbook product reduced with x^3 = x+1, __int128.
 #include "vcommon.hpp"
+#include <new>
 #include "goldilocks_cubic_extension.hpp"
 #include <omp.h>
 using namespace vc;
@@ -275,6 +276,44 @@ out:
     free(sb);
 }
 
+// ---- allocation failure as an environment answer.  While g_cap is non-zero every array allocation of more than g_cap bytes made
+// by the code under test fails (nothrow forms return NULL, throwing forms throw bad_alloc): a memory cap.  A call may then give
+// up with an exception -- nothing is claimed about that -- but a call that RETURNS must have produced the inverses.
+static thread_local size_t g_cap = 0;
+static thread_local long g_failed = 0;
+void *operator new[](size_t n, const std::nothrow_t &) noexcept { if (g_cap && n > g_cap) { g_failed++; return nullptr; } return malloc(n ? n : 1); }
+void *operator new[](size_t n) { if (g_cap && n > g_cap) { g_failed++; throw std::bad_alloc(); } void *p = malloc(n ? n : 1); if (!p) throw std::bad_alloc(); return p; }
+void *operator new(size_t n, const std::nothrow_t &) noexcept { if (g_cap && n > g_cap) { g_failed++; return nullptr; } return malloc(n ? n : 1); }
+void operator delete[](void *p) noexcept { free(p); }
+void operator delete[](void *p, size_t) noexcept { free(p); }
+void operator delete[](void *p, const std::nothrow_t &) noexcept { free(p); }
+void operator delete(void *p, const std::nothrow_t &) noexcept { free(p); }
+static void chk_batch_memcap(size_t n, int div, long long &ev)
+{
+    std::vector<T3> v = gen_array(n);
+    std::vector<u64> flat_src(3 * n), flat_res(3 * n, 0x99);
+    for (size_t i = 0; i < n; i++) for (int k = 0; k < 3; k++) flat_src[3 * i + k] = v[i].c[k];
+    std::string cs_ = fmt("w=%u op=batchInverse_memcap gen=1 n=%zu div=%d", W, n, div);
+    bool returned = false;
+    g_failed = 0;
+    g_cap = (n * 24) / (size_t)div + 24; // arrays of more than n/div elements cannot be allocated
+    try { Goldilocks3::batchInverse((E3 *)flat_res.data(), (E3 *)flat_src.data(), n); returned = true; }
+    catch (const std::bad_alloc &) {}
+    g_cap = 0;
+    ev++;
+    if (!returned) return;
+    for (size_t i = 0; i < n; i++)
+    {
+        T3 r{{flat_res[3 * i], flat_res[3 * i + 1], flat_res[3 * i + 2]}};
+        T3 prod = omul(v[i], r);
+        if (!(prod.c[0] == 1 % PR && prod.c[1] == 0 && prod.c[2] == 0))
+        {
+            rep().viol(fmt("C09.wrong.batchInverse.memcap.w%u", W), cs_, fmt("allocations above %zu bytes fail (%ld refused); the call returned normally but element %zu is not the inverse: src*res = (%s)", (n * 24) / (size_t)div + 24, g_failed, i, t3s(prod).c_str()));
+            return;
+        }
+    }
+}
+
 static T3 parse3(const std::string &s)
 {
     T3 t{{0, 0, 0}};
@@ -307,7 +346,8 @@ static int run_one(const Args &args)
         std::string arr = cs(m, "arr");
         size_t p = 0;
         while (p < arr.size()) { size_t q = arr.find(';', p); if (q == std::string::npos) q = arr.size(); v.push_back(parse3(arr.substr(p, q - p))); p = q + 1; }
-        if (!v.empty() && m.count("ro")) chk_batch_placed(v, ev, (int)cu(m, "ro"), (int)cu(m, "so"));
+        if (m.count("div")) chk_batch_memcap((size_t)cu(m, "n"), (int)cu(m, "div"), ev);
+        else if (!v.empty() && m.count("ro")) chk_batch_placed(v, ev, (int)cu(m, "ro"), (int)cu(m, "so"));
         else if (!v.empty()) chk_batch(v, ev);
     }
     else chk_mixed(a, b.c[0], ev);
@@ -435,6 +475,10 @@ int main(int argc, char **argv)
         for (int n = 1; n <= 40; n++) { chk_batch_placed(gen_array((size_t)n), ev); cnt += 24; }
         for (int n : {64, 100, 257, 1000, 4099}) { chk_batch_placed(gen_array((size_t)n), ev); cnt += 24; }
         rep().stat("batchInverse_placements", 45 * 24);
+        // memory caps: allocations of more than n/div elements fail
+        for (size_t n : {(size_t)2, (size_t)3, (size_t)5, (size_t)7, (size_t)9, (size_t)33, (size_t)64, (size_t)1001, (size_t)4099})
+            for (int div : {1, 2, 3, 4, 8}) { chk_batch_memcap(n, div, ev); cnt++; }
+        rep().stat("batchInverse_memory_caps", 45);
         ev_total += ev;
         states += cnt;
         rep().sample("batchInverse", fmt("\"w\":%u,\"what\":\"every array of length 1..%d over a 6-element alphabet of non-zero elements (%lld arrays) + lengths 8,9,16,33,64,100,257,1000,4099,16384,16385,20001,32769,40002,65537; also in place\"", W, L, cnt), 1);
